@@ -43,6 +43,7 @@ type vocWorld struct {
 	ran     []int // connection ids whose Inputs callback ran during the last dispatch
 	nextID  int
 	slots   map[int32]bool
+	held    []*FDOperator // operators taken by "drain" and never used
 }
 
 func (w *vocWorld) slotObs(idx int32) string {
@@ -115,6 +116,13 @@ func (w *vocWorld) exec(toks []string) (op string, reply string) {
 	switch toks[0] {
 	case "open":
 		return w.open()
+	case "drain":
+		// use up the cache's free chain, so the next alloc has to get its operator some other way
+		// (a fresh block; never a slot that still waits in the freelist for the end of the batch)
+		for w.p.opcache.first != nil {
+			w.held = append(w.held, w.p.Alloc())
+		}
+		return op, "ok " + w.obs()
 	case "send":
 		vc := w.conns[atoi(toks[1])]
 		syscall.Write(vc.peer, []byte("abc"))
@@ -334,7 +342,7 @@ func VerifOpCacheMain(args []string) int {
 			// op lines carry annotations (slot=…, fetched indices): strip them for re-execution
 			t := strings.Fields(line)
 			switch t[0] {
-			case "open", "fetch", "endbatch", "check":
+			case "open", "fetch", "endbatch", "check", "drain":
 				t = t[:1]
 			case "dispatch":
 				t = t[:1]
@@ -359,6 +367,10 @@ func VerifOpCacheMain(args []string) int {
 		}
 		fmt.Fprintf(ow, "seq %d\n", s)
 		fmt.Fprintln(iw, "seq")
+		if r.Intn(3) == 0 {
+			// only before any connection exists: every operator taken is one no modelled slot refers to
+			emit(w, "drain")
+		}
 		for i := 0; i < *nops; i++ {
 			var line string
 			nc := len(w.conns)
